@@ -4,7 +4,7 @@ import composites as CP
 
 RULE = ("families of languages with monomorphic primitives (first- and higher-order, a subtype B <= A), the polymorphic combinators compose / flip / const / "
         "ident / twice and 2-6 randomly generated composite operators whose bodies use earlier definitions (partial application included); type-directed "
-        "expressions of depth <= 3 (data- and function-valued) over shared numbered sources; observed: primitive() result tree, its type, a second expansion; "
+        "expressions of depth <= 3 (data- and function-valued) over shared numbered sources, half of them using definitions that duplicate a parameter; observed: primitive() result tree, its type, a second expansion; "
         "oracle: an independent normaliser on de-Bruijn terms (unfold every composite, leftmost-outermost beta reduction to full normal form), absence of "
         "composite operators and redexes, type of the expansion <= type before, idempotence, and no typing error for a language that validates; "
         "non-trivial = the expression mentions at least one composite operator; distinct by (family, expression)")
@@ -168,7 +168,7 @@ def run(ctx):
         ctx.count("family_valid" if valid else "family_not_valid")
         for k in range(nexpr):
             target = CP.A if rng.random() < 0.8 else CP.fun(CP.A, CP.A)
-            tree = CP.gen_expr_tree(rng, fam, depth=rng.randint(1, 3), linear_only=rng.random() < 0.7, target=target)
+            tree = CP.gen_expr_tree(rng, fam, depth=rng.randint(1, 3), linear_only=rng.random() < 0.5, target=target)
             one_case(ctx, fi, fam, tree, valid)
 
 
@@ -204,8 +204,8 @@ def one_case(ctx, fi, fam, tree, valid=True):
             dict(feats, check="expansion-crash", exception=type(ex).__name__), replay)
         return
     got = to_db(p, srcs)
-    if not uses_nonlinear(fam, tree):
-        # the model (pure calculus) is tied to the implementation on expressions whose definitions use every parameter at most once
+    if True:
+        # the model (pure calculus) against the implementation - since the repair of D8 also for definitions that use a parameter more than once
         ctx.case(f"(prim {defs_sexp(fam)} {lterm_sexp(tree_to_l(tree))})", "ok " + show_l(got), {"family": fam.to_json(), "text": text},
             nontrivial=mentions_composite(fam, tree), key=(fi, text))
         ctx.evaluations -= 1
